@@ -79,7 +79,8 @@ Definition wrap_index (N : Z) (z : Z) : result nat :=
 Definition subset_indices (N : nat) (s : subset) : result (list nat) :=
   match s with
   | SSlice a b c => slice_indices (Z.of_nat N) a b c
-  | SMask m => if (length m =? N)%nat then Ok (mask_indices 0 m) else Error IndexError
+  (* numpy: a boolean index must have length N — except that an EMPTY boolean array is accepted for any N *)
+  | SMask m => if ((length m =? N) || (length m =? 0))%nat then Ok (mask_indices 0 m) else Error IndexError
   | SIdx l => mapM (wrap_index (Z.of_nat N)) l
   end.
 
